@@ -80,6 +80,11 @@ func (l Logr) AddAgentRaw(AgentID, Raw string) {
 }
 
 func (l Logr) DemonAddOutput(DemonID string, Output map[string]string, time string) {
+	if !validAgentID(DemonID) {
+		logger.Error("Agent id is not usable as a directory name. abort")
+		return
+	}
+
 	var (
 		DemonPath    = l.AgentPath + "/" + filepath.Clean(DemonID)
 		DemonLogFile = DemonPath + "/Console_" + DemonID + ".log"
@@ -132,6 +137,11 @@ func (l Logr) DemonAddOutput(DemonID string, Output map[string]string, time stri
 }
 
 func (l Logr) DemonAddDownloadedFile(DemonID, FileName string, FileBytes []byte) {
+	if !validAgentID(DemonID) {
+		logger.Error("Agent id is not usable as a directory name. abort")
+		return
+	}
+
 	var (
 		DemonPath        = l.AgentPath + "/" + DemonID
 		DemonDownloadDir = DemonPath + "/Download"
@@ -219,4 +229,11 @@ func (l Logr) DemonSaveScreenshot(DemonID, Name string, BmpBytes []byte) error {
 	}
 
 	return nil
+}
+
+// validAgentID reports whether an agent id (which services may supply as free text)
+// names exactly one entry of the agents directory: everything logged for the agent
+// goes below AgentPath/<id>.
+func validAgentID(AgentID string) bool {
+	return AgentID != "" && AgentID != "." && AgentID != ".." && !strings.ContainsAny(AgentID, "/\\\x00")
 }
